@@ -570,6 +570,9 @@ type SOutSpec struct {
 	Kind     int
 	Certs    []int
 	Comments []string
+	// CancelCtx: the run's context is cancelled while this call is being answered (the request timeout expires in
+	// the middle of a run; the answer itself is unaffected)
+	CancelCtx bool
 }
 
 // MockSigner is the scripted CA.
@@ -578,6 +581,7 @@ type MockSigner struct {
 	pool   *Pool
 	rec    *Recorder
 	Script []SOutSpec
+	cancel func()
 	calls  int
 	serial uint64
 	// what each call actually returned, as Gallina [sout] terms
@@ -618,6 +622,9 @@ func (m *MockSigner) Sign(ctx context.Context, req *proto.SSHCertificateSigningR
 	spec := SOutSpec{Kind: SigErr}
 	if n < len(m.Script) {
 		spec = m.Script[n]
+	}
+	if spec.CancelCtx && m.cancel != nil {
+		m.cancel()
 	}
 	switch spec.Kind {
 	case SigErr:
@@ -934,6 +941,8 @@ type RunSpec struct {
 	Beh      Beh
 	Faults   map[int]int
 	Signer   []SOutSpec
+	// CtxDone: the context handed to gensign.Run is already cancelled
+	CtxDone bool
 }
 
 type SessionSpec struct {
@@ -1223,6 +1232,10 @@ func Execute(pool *Pool, spec SessionSpec, rng *mrand.Rand) *Session {
 			// a cancellable context with a deadline, as cmd/gensign passes
 			ctx, cancel := context.WithTimeout(context.Background(), 2*time.Minute)
 			defer cancel()
+			signer.cancel = cancel
+			if rs.CtxDone {
+				cancel()
+			}
 			runErr = gensign.Run(ctx, rs.Params, handlers, signer)
 		})
 		res.Kind, res.KindName = "None", "success"
